@@ -36,6 +36,7 @@ def cache_yang_context():
     def cached(lib):
         if lib not in cache:
             cache[lib] = orig(lib)
+        cache[lib].clean_all_errors()        # error messages of earlier documents must not leak into this one's report
         return cache[lib]
     cached._verif_cached = True
     cached._orig = orig
